@@ -72,7 +72,7 @@ class RuntimeContract:
         skip = set(contract.exposes)
         self.requires = [(_compile(e), txt) for e, txt in contract.requires]
         self.ensures = [(_compile(e), txt) for e, txt in contract.ensures if not (_names(e) & skip)]
-        self.real = resolve_real(contract.qualname)
+        self.real = resolve_real(contract.qualname.split('#')[0])
         self.evaluations = 0
 
     def env(self, bound):
@@ -93,6 +93,7 @@ class RuntimeContract:
                                              (cfg.predicates.default_factory() if hasattr(cfg.predicates, 'default_factory') else []))
             env['differs_at'] = lambda p: cfg.differs[p]
             env['is_atomic'] = lambda x, p: cfg.is_atomic(x, p)
+            env['has_preds'] = lambda p: p in cfg.predicates
         env['path_star'] = lambda p: '/'.join((p, '*'))
         env['differs_ok'] = lambda: True          # quantifies over all values: assumed at run time
         env['good_differ'] = lambda f: True
@@ -229,6 +230,8 @@ def inputs_for(contract, limit=4000, atoms=ATOMS):
             pools.append(values)
         elif k == 'int':
             pools.append([0, 1, 2, 3])
+        elif k == 'str':
+            pools.append(['a', 'b', 'zz'])
         elif k == 'fn':
             pools.append(PREDICATES)
         elif k in ('E', 'ME'):
